@@ -59,7 +59,7 @@ CHECK_DEADLOCK FALSE
                     feats["reward-matured"] += 1
                 if len(samples) < 4 and e["kind"] in ("SelfDestruct", "CallRevert", "Stake", "Mature") and e["ok"]:
                     samples.append({k: v for k, v in e.items() if k != "slots"})
-    for k in ("Transfer", "Deploy", "CallForward", "CallRevert", "SelfDestruct", "CallCreate", "Stake", "Refund"):
+    for k in ("Transfer", "Deploy", "CallForward", "CallRevert", "SelfDestruct", "CallCreate", "Stake", "Refund", "EthForward"):
         if kinds[(k, True)] == 0 or kinds[(k, False)] == 0:
             raise Inconclusive("vacuity: %s never both succeeded and failed: %s" % (k, dict(kinds)))
     for f in ("burn", "stake-locked", "refund-matured", "reward-matured"):
@@ -82,6 +82,6 @@ CHECK_DEADLOCK FALSE
         "the total is the sum of ALL balance slots of the native token contract's storage (iterated after every block), so value sent to any address is counted",
         "one transaction per block; the per-block delta is judged exactly (big-number arithmetic in TLA+)",
         "the reward block 36000 adds to the escrow it pays out is taken to equal the reward of the equally empty block 35999",
-        "transaction kinds not driven: wrapped Ethereum transactions (type 188, same executor as type 200 after signature recovery) and operator-node (type 7, needs the main-node contract)",
+        "wrapped Ethereum transactions (type 188) are driven at the executor level (nonce check, eviction), their signature recovery belongs to C07; operator-node (type 7) is not driven (needs the main-node contract)",
         "dev fork schedule at heights < 10 with Proposal026 inactive",
     ])
